@@ -44,7 +44,7 @@ HARNESSES = [
          extra_src=["lib/ext2fs/dupfs.c", "lib/ext2fs/blknum.c"],
          cut_statics={"resize/resize2fs.c": RESIZE_STAGES},
          configs=[{}, {"FLUSH_FAULT": None}],
-         unwind=4, backends=["default", "kissat"],
+         unwind=4, backends=["default"],
          bound="all original s_state values, all fault schedules of the 20 stages (symbolic return code each), "
                "all choices of move_itables' intermediate flushes; geometry fixed (irrelevant to the protocol)"),
     dict(name="extent", src="extent.c",
@@ -54,14 +54,14 @@ HARNESSES = [
                  [{"OP": 1, "NENT": 2, "NUM": n} for n in (0, 1, 2)] +
                  [{"OP": 2, "NENT": 2, "NUM": n} for n in (1, 2, 3)] +
                  [{"OP": 2, "NENT": 3, "NUM": 4, "_tier": "thorough"}],
-         unwind=6, backends=["default", "kissat", "z3"], witness_per_config=True,
+         unwind=6, backends=["default"], witness_per_config=True,
          bound="table of <= 3 runs (thorough: 4), locations/lengths < 2^62; probe address: all 2^64 values; "
                "history: capacity-1 table, 2 ascending adds (growth), translate, iterate"),
     dict(name="extent_sort", src="extent.c",
          funcs=["ext2fs_extent_translate", "extent_cmp"],
          configs=[{"OP": 3, "NENT": 2, "NUM": n, "LOCBITS": 31} for n in (2, 3)] +
                  [{"OP": 5, "LOCBITS": 31}],
-         unwind=6, backends=["default", "kissat", "z3"], witness_per_config=True,
+         unwind=6, backends=["default"], witness_per_config=True,
          bound="unsorted table of 2..3 runs, locations/lengths < 2^31 (extent_cmp returns the 64-bit difference as int); probe: all 2^64 values"),
     dict(name="newsize", src="newsize.c",
          funcs=["adjust_new_size", "adjust_fs_info"],
@@ -77,7 +77,7 @@ HARNESSES = [
                   {"CHECK": 1, "LOGBS": 0, "BPG": 8192, "DESC": 32, "SBITS": 32, "_tier": "thorough"},
                  ],
          unwind=4, unwindset=NS_UW, witness_per_config=True,
-         backends=["default", "kissat"],
+         backends=["default"],
          bound="requested/old size: every value < 2^32 (2^36 with 64bit descriptors); block size 1 KiB / 4 KiB, 8192 / 32768 blocks per group "
                "(concrete per query); inode-table size, reserved GDT blocks, sparse_super / sparse_super2 + backup groups: symbolic; "
                "inodes per group symbolic in CHECK 2, concrete per query in CHECK 1; ext2fs_bg_has_super cut to the format rule (decided in C20)"),
@@ -87,14 +87,16 @@ HARNESSES = [
          configs=[{"CHECK": 2, "LOGBS": 0, "BPG": 8192, "DESC": 32, "SBITS": 24, "_tier": "thorough"},
                   {"CHECK": 1, "LOGBS": 0, "BPG": 8192, "DESC": 32, "SBITS": 24, "IPG": 8192, "_tier": "thorough"}],
          unwind=4, unwindset=NS_UW + ["test_root.0:9"],
-         backends=["default", "kissat"], cap_thorough=1200,
+         backends=["default"], cap_thorough=1200,
          bound="as newsize, with the real ext2fs_bg_has_super/test_root linked; sizes < 2^24 blocks (<= 2048 groups)"),
     dict(name="gdconv", src="gdconv.c",
          funcs=["resize_group_descriptors", "adjust_reserved_gdt_blocks", "ext2fs_block_bitmap_loc", "ext2fs_bg_flags"],
          extra_src=["lib/ext2fs/blknum.c"],
-         configs=[{"NG": ng, "CONV": d, "FL": 1, "_unwindset": gd_uw(ng)} for ng in (3, 17) for d in (1, 2)] +
+         configs=[{"NG": 3, "CONV": d, "FL": 1, "_unwindset": gd_uw(3)} for d in (1, 2)] +
+                 [{"NG": 17, "CONV": 2, "FL": 1, "_unwindset": gd_uw(17)},
+                  {"NG": 17, "CONV": 1, "FL": 1, "_unwindset": gd_uw(17), "_tier": "thorough"}] +
                  [{"NG": 3, "CONV": d, "FL": fl, "_unwindset": gd_uw(3)} for d in (1, 2) for fl in (2, 3, 4, 5)],
-         unwind=4, witness_per_config=True, backends=["default", "kissat"],
+         unwind=4, witness_per_config=True, backends=["default"],
          bound="3 and 17 groups (17: the table grows from 1 to 2 descriptor blocks), 1 KiB blocks; all descriptor bytes, "
                "size, requested size, flags, reserved GDT count symbolic"),
 ]
